@@ -218,7 +218,9 @@ func (sta *State) UsedRandomCleaner() {
 		verifhook.At("state.cleaner.tick")
 		sta.usedRandomM.Lock()
 		for key, t := range sta.UsedRandom {
-			if time.Unix(t, 0).Before(sta.WorldState.Now().Add(timestampTolerance)) {
+			// a packet last seen at t may carry a timestamp up to t+tolerance and stays acceptable until
+			// that timestamp +tolerance, so its random must be remembered for twice the tolerance
+			if time.Unix(t, 0).Before(sta.WorldState.Now().Add(-2*timestampTolerance - time.Second)) {
 				delete(sta.UsedRandom, key)
 			}
 		}
